@@ -123,7 +123,7 @@ def run(pid, tier):
         pfile = os.path.join(wd, f"progs-{name}.ndjson")
         with open(pfile, "w") as fh:
             for i, p in enumerate(progs):
-                fh.write(json.dumps(dict(id=f"{name}-{i}", cap=p["cap"], ops=p["ops"])) + "\n")
+                fh.write(json.dumps(dict(id=f"{name}-{i}", cap=p["cap"], ops=p["ops"], dirty=(i % 2 == 1))) + "\n")
         trace = os.path.join(wd, f"trace-{name}.ndjson")
         lib.run_harness(binary, ["framebuild-replay", pfile, trace, lib.seed()])
         validate(trace, f"mc-{name}")
